@@ -282,6 +282,60 @@ static int drv_zk(const Opts &o)
 				emit("zk.key.final " + c.kind + " " + c.pqg() + " " + f[0].str() + " " + f[1].str() + " " + ch.str() + " " + f[2].str() + " " + tag + " => " + out);
 			}
 		}
+		// ------------------------------------------------ public-coin proof of knowledge of the key share: the challenge
+		// is a jointly flipped coin (two-party EDCF) whose CRS need not be the VTMF group
+		{
+			int crs_kind = (int)g.below(3); // 0: the VTMF group itself, 1: an independent group with a longer q', 2: a shorter q'
+			SmallGroup cg; Z cp, cq, cgg, chh; unsigned cpb = c.pbits, cqb = c.qbits;
+			if (crs_kind == 0 && !c.qr) { mpz_set(cp, A->p); mpz_set(cq, A->q); mpz_set(cgg, A->g); }
+			else { if (crs_kind == 2) { cpb = 64; cqb = 16; } else { cpb = c.pbits <= 128 ? 256 : 128; cqb = c.pbits <= 128 ? 192 : 100; if (cqb <= c.qbits && !c.qr) cqb = c.qbits + 8; if (cpb < cqb + 16) cpb = cqb + 32; }
+				cg = make_group(g, cpb, cqb); mpz_set(cp, cg.p); mpz_set(cq, cg.q); mpz_set(cgg, cg.g); }
+			{ Z e; do { gen_below(e, g, cq); mpz_powm(chh, cgg, e, cp); } while (!mpz_cmp_ui(chh, 1) || !mpz_cmp(chh, cgg)); }
+			std::string crs = cp.str() + " " + cq.str() + " " + cgg.str() + " " + chh.str();
+			JareckiLysyanskayaEDCF eP(2, 0, cp, cq, cgg, chh, cpb, cqb), eV(2, 0, cp, cq, cgg, chh, cpb, cqb);
+			auto lines_of = [](const std::string &txt, std::vector<std::string> &dec) { std::istringstream is(txt); std::string l; std::string s = "["; while (std::getline(is, l)) { Z v; mpz_set_str(v, l.c_str(), TMCG_MPZ_IO_BASE); if (s.size() > 1) s += ","; s += v.str(); dec.push_back(l); } return s + "]"; };
+			auto coin_vals = [&](const std::vector<CoinLogEntry> &es, bool prover, std::string &vals, std::vector<unsigned char> &raw) {
+				size_t k = 0; vals.clear();
+				for (auto &e : es) { raw.insert(raw.end(), e.bytes.begin(), e.bytes.end()); if (e.bytes.size() == 8) continue; Z v; if (prover && k == 0) coin_mod(v, e, A->q); else coin_mod(v, e, cq); if (k) vals += " "; vals += v.str(); k++; }
+				return k; };
+			auto run_prover = [&](const std::string &input, const std::vector<unsigned char> &script, std::string &sent, std::vector<std::string> &sent_lines, std::string &vals, std::vector<unsigned char> &raw) {
+				std::istringstream in(input); std::ostringstream out; coins.script = script; coins.script_pos = 0; coins.take();
+				std::string ret = guarded([&]() { return b2s(A->KeyGenerationProtocol_ProveKey_interactive_publiccoin(&eP, in, out)); });
+				size_t k = coin_vals(coins.take(), true, vals, raw); coins.script.clear(); coins.script_pos = 0; sent = lines_of(out.str(), sent_lines); (void)k; return ret; };
+			auto run_verifier = [&](mpz_srcptr key, const std::string &input, const std::vector<unsigned char> &script, std::string &sent, std::vector<std::string> &sent_lines, std::string &vals, std::vector<unsigned char> &raw) {
+				std::istringstream in(input); std::ostringstream out; coins.script = script; coins.script_pos = 0; coins.take();
+				std::string ret = guarded([&]() { return b2s(B->KeyGenerationProtocol_VerifyKey_interactive_publiccoin(key, &eV, in, out)); });
+				coin_vals(coins.take(), false, vals, raw); coins.script.clear(); coins.script_pos = 0; sent = lines_of(out.str(), sent_lines); return ret; };
+			auto join = [](const std::vector<std::string> &l, size_t from, size_t to) { std::string s; for (size_t i = from; i < to && i < l.size(); i++) s += l[i] + "\n"; return s; };
+			auto dec_list = [](const std::vector<std::string> &l, size_t from, size_t to) { std::string s = "["; for (size_t i = from; i < to && i < l.size(); i++) { Z v; mpz_set_str(v, l[i].c_str(), TMCG_MPZ_IO_BASE); if (s.size() > 1) s += ","; s += v.str(); } return s + "]"; };
+			std::string ps, vs, pv, vv; std::vector<std::string> pl, vl; std::vector<unsigned char> praw, vraw, none;
+			// pass 1: the prover alone (stops when the verifier's commitment is missing)
+			std::string r1 = run_prover("", none, ps, pl, pv, praw);
+			emit("zk.keypc.prove " + c.pqg() + " " + zs(A->x_i) + " " + crs + " " + pv + " [] tag:peer-silent => " + r1 + " " + ps);
+			if (pl.size() >= 2) {
+				// pass 2: the verifier on m_1 and the prover's commitment (stops when the opening is missing)
+				std::string r2 = run_verifier(A->h_i, join(pl, 0, 2), none, vs, vl, vv, vraw);
+				emit("zk.keypc.verify " + c.kind + " " + c.pqg() + " " + zs(A->h_i) + " " + crs + " " + vv + " " + dec_list(pl, 0, 2) + " tag:peer-stops => " + r2 + " " + vs);
+				if (vl.size() >= 3) {
+					// pass 3: the prover again, same coins, with the verifier's three lines
+					std::vector<std::string> pl2; std::vector<unsigned char> raw2; std::string ps2, pv2;
+					std::string r3 = run_prover(join(vl, 0, 3), praw, ps2, pl2, pv2, raw2);
+					emit("zk.keypc.prove " + c.pqg() + " " + zs(A->x_i) + " " + crs + " " + pv2 + " " + dec_list(vl, 0, 3) + " tag:honest => " + r3 + " " + ps2);
+					// pass 4: the verifier again, same coins, with the complete transcript (and with mutated responses)
+					for (int mm = -1; mm < 4; mm++) {
+						std::vector<std::string> tl = pl2; std::string tag = "tag:honest";
+						Z key; mpz_set(key, A->h_i);
+						if (tl.size() < 5) break;
+						if (mm >= 0) { Z v; mpz_set_str(v, tl[4].c_str(), TMCG_MPZ_IO_BASE); std::string nm;
+							switch (mm) { case 0: mpz_add_ui(v, v, 1); nm = "m2:plus1"; break; case 1: mpz_sub(v, v, A->q); nm = "m2:minusq"; break; case 2: mpz_neg(v, v); nm = "m2:neg"; break; default: mpz_sub(key, A->p, key); nm = "key:negelem"; break; }
+							std::ostringstream o2; o2 << v.v; tl[4] = o2.str(); tag = "tag:mut:" + nm; if (mm == 1) tag = "tag:equivrep:m2:minusq"; }
+						std::vector<std::string> vl2; std::vector<unsigned char> raw3; std::string vs2, vv2;
+						std::string r4 = run_verifier(key, join(tl, 0, 5), vraw, vs2, vl2, vv2, raw3);
+						emit("zk.keypc.verify " + c.kind + " " + c.pqg() + " " + key.str() + " " + crs + " " + (vv2.empty() ? std::string("0 0") : vv2) + " " + dec_list(tl, 0, 5) + " " + tag + " => " + r4 + " " + vs2);
+					}
+				}
+			}
+		}
 		// ------------------------------------------------ cut-and-choose stack equality
 		{
 			size_t n = 1 + g.below(cidx % 3 ? 6 : 14), kappa = 1 + g.below(thorough ? 12 : 5);
